@@ -1103,3 +1103,83 @@ Proof.
   intros ig0 q d fuel s sF Ht Hi H. destruct (run_end_inv ig0 q d fuel s sF Ht Hi H) as [H1 H2].
   exact (done_complete ig0 q d sF H1 H2).
 Qed.
+
+(* ====================================================================================== *)
+(* Part 4: start-of-line state after a function-like macro name that is not invoked        *)
+(* ====================================================================================== *)
+(* try_param_macro_call skips white space and end-of-replacement markers while it looks for `(`.  When there is no `(`
+   the LAST skipped white-space token goes back in front of the input, so the main loop sees it: a new-line sets
+   newln_p, and a `#` that follows starts a directive; a space does not. *)
+Definition starts_with (c : nat) (i : list tok) : bool :=
+  match i with t :: _ => is_punct c t | [] => false end.
+
+Lemma step_uninvoked_name : forall q d s name m ps rest i cs ig ws,
+  inp s = TIdent false name :: rest ->
+  d name = Some m -> m_params m = Some ps -> ignored (ign s) name = false ->
+  skip_to_paren rest (calls s) (ign s) None = Some (i, cs, ig, ws) ->
+  starts_with lparen i = false ->
+  step q d s = Next (mkst (match ws with Some w => w :: i | None => i end) (TIdent false name :: out s) cs ig false).
+Proof.
+  intros q d s name m ps rest i cs ig ws Hi Hd Hp Hg Hs Hl.
+  unfold step. rewrite Hi. cbn [is_punct]. rewrite andb_false_r.
+  rewrite Hd, Hg, Hp, Hs. unfold starts_with in Hl. rewrite Hl. reflexivity.
+Qed.
+
+Lemma skip_to_paren_ws : forall rest cs ig w0 i cs' ig' ws,
+  skip_to_paren rest cs ig w0 = Some (i, cs', ig', ws) ->
+  (ws = None \/ ws = Some TSp \/ ws = Some TNl) \/ ws = w0.
+Proof.
+  induction rest as [|t r IH]; intros cs ig w0 i cs' ig' ws H; cbn in H.
+  - inversion H; subst; right; reflexivity.
+  - destruct t; try (inversion H; subst; right; reflexivity).
+    + apply IH in H. destruct H as [H|H]; [left; exact H|left; right; left; exact H].
+    + apply IH in H. destruct H as [H|H]; [left; exact H|left; right; right; exact H].
+    + destruct (pop_call cs ig) as [[cs1 ig1]|]; [|discriminate]. apply IH in H. exact H.
+Qed.
+
+(* the name, then a run of white space / end-of-replacement markers whose last white-space token is a new-line, then `#`:
+   the `#` is taken as the start of a directive (the model leaves its domain with [Bad 1]) -- whatever the run was *)
+Theorem directive_after_uninvoked_name_l : forall q d s name m ps rest r cs ig fuel,
+  inp s = TIdent false name :: rest ->
+  d name = Some m -> m_params m = Some ps -> ignored (ign s) name = false ->
+  skip_to_paren rest (calls s) (ign s) None = Some (TTok KPunct [sharp] :: r, cs, ig, Some TNl) ->
+  run q d (3 + fuel) s = Err 1.
+Proof.
+  intros q d s name m ps rest r cs ig fuel Hi Hd Hp Hg Hs.
+  cbn [plus run].
+  rewrite (step_uninvoked_name q d s name m ps rest _ cs ig (Some TNl) Hi Hd Hp Hg Hs eq_refl).
+  cbn. reflexivity.
+Qed.
+
+(* ... and when the last skipped white-space token is a space (or there is none) the `#` is an ordinary token: it is
+   sent to the output and the loop goes on with what follows it *)
+Theorem no_directive_after_uninvoked_name_on_the_same_line_l : forall q d s name m ps rest r cs ig ws,
+  inp s = TIdent false name :: rest ->
+  d name = Some m -> m_params m = Some ps -> ignored (ign s) name = false ->
+  skip_to_paren rest (calls s) (ign s) None = Some (TTok KPunct [sharp] :: r, cs, ig, ws) ->
+  ws <> Some TNl ->
+  exists k o, (forall fuel, run q d (k + fuel) s = run q d fuel (mkst r (TTok KPunct [sharp] :: o) cs ig false))
+              /\ (o = TIdent false name :: out s \/ o = TSp :: TIdent false name :: out s).
+Proof.
+  intros q d s name m ps rest r cs ig ws Hi Hd Hp Hg Hs Hw.
+  pose proof (skip_to_paren_ws _ _ _ _ _ _ _ _ Hs) as Hc.
+  pose proof (step_uninvoked_name q d s name m ps rest _ cs ig ws Hi Hd Hp Hg Hs eq_refl) as E.
+  destruct Hc as [[Hc|[Hc|Hc]]|Hc]; subst ws; try congruence.
+  - exists 2; eexists; split; [|left; reflexivity]. intro fuel. cbn [plus run]. rewrite E. reflexivity.
+  - exists 3; eexists; split; [|right; reflexivity]. intro fuel. cbn [plus run]. rewrite E. reflexivity.
+  - exists 2; eexists; split; [|left; reflexivity]. intro fuel. cbn [plus run]. rewrite E. reflexivity.
+Qed.
+
+(* the new-line that was pushed back is the next thing the loop sees, and it is passed on to the output *)
+Theorem uninvoked_name_keeps_the_newline_l : forall q d s name m ps rest i cs ig,
+  inp s = TIdent false name :: rest ->
+  d name = Some m -> m_params m = Some ps -> ignored (ign s) name = false ->
+  skip_to_paren rest (calls s) (ign s) None = Some (i, cs, ig, Some TNl) ->
+  starts_with lparen i = false ->
+  exists s1 s2, step q d s = Next s1 /\ step q d s1 = Next s2 /\
+                inp s2 = i /\ out s2 = TNl :: TIdent false name :: out s /\ nl s2 = true /\ calls s2 = cs /\ ign s2 = ig.
+Proof.
+  intros q d s name m ps rest i cs ig Hi Hd Hp Hg Hs Hl.
+  eexists; eexists; split; [eapply step_uninvoked_name; eauto|].
+  cbn. repeat split; reflexivity.
+Qed.
